@@ -325,58 +325,99 @@ example : (runWorld wcfg (World.init [99,112,49] [99,112,50]) hist).commits.map 
 example : ((runWorld wcfg (World.init [99,112,49] [99,112,50]) hist).b.stream.map (·.block.body.length)) =
     [3, 4] := by decide +kernel
 
-/-! ### the global theorem: arbitrary interleavings, restarts included, nothing assumed about states -/
+/-! ### the global theorems: arbitrary interleavings, restarts included, nothing assumed about states -/
 
-/-- **`BookClean` is derived, not assumed.** In every world reachable by
-    events that satisfy `EvOK'` (a condition on each event alone), the only keys
-    of the reserved namespace that carry an expiry are marker keys; hence every
-    bookkeeping request the tool issues meets no lazily expiring key and
-    propagates as itself or not at all — the hypothesis `exactly_once_and_quiesce`
-    made per event. -/
-theorem bookclean_derived (cfg : WCfg) (hf : FOK cfg.parser.filter) (cpAB cpBA : Bytes)
-    (hab : Slot.lbrace ∉ cpAB) (hba : Slot.lbrace ∉ cpBA) (evs : List Ev) (hgood : GoodEvents cfg evs)
+/-- **`BookClean` is derived, not assumed.** Start from two sites holding any
+    data in which no key of the reserved namespace other than a marker key
+    carries an expiry (`NsTtl`; empty sites in particular); run events that
+    satisfy `EvOK'` (a condition on each event alone), restarts of any kind
+    included. Then the only namespace keys with an expiry are still marker
+    keys; hence every bookkeeping request the tool issues meets no lazily
+    expiring key and propagates as itself or not at all — the hypothesis
+    `exactly_once_and_quiesce` made per event. -/
+theorem bookclean_derived (cfg : WCfg) (hf : FOK cfg.parser.filter) (cpAB cpBA : Bytes) (sa sb : Store) (na nb : Nat)
+    (hab : Slot.lbrace ∉ cpAB) (hba : Slot.lbrace ∉ cpBA) (ha : NsTtl sa) (hb : NsTtl sb)
+    (evs : List Ev) (hgood : GoodEvents cfg evs)
     (src : SiteId) (bk : Bookkeeping) (hv : bk.Valid) (hi : bk.Issued) :
-    BookClean cfg (runWorld cfg (World.init cpAB cpBA) evs) src bk :=
-  bookClean_of_nsTtl cfg _ src bk hv hi ((grun cfg hf evs _ (ginv_init cfg cpAB cpBA hab hba) hgood).ttl src.other)
+    BookClean cfg (runWorld cfg (World.initWith cpAB cpBA sa sb na nb) evs) src bk :=
+  bookClean_of_nsTtl cfg _ src bk hv hi
+    ((lrun cfg hf evs _ (linv_initWith cfg cpAB cpBA sa sb na nb hab hba ha hb) hgood).ttl src.other)
 
-/-- **No loop and no false suppression, over arbitrary interleavings.** Two
-    sites, two links with checkpoint names as the tool generates them
-    (brace-free), empty at the start. Run ANY list of events, each satisfying
-    `EvOK'` — a condition on the event alone, nothing about the state it meets:
-    client commands and MULTI/EXEC transactions at either site on any keys
-    outside the reserved prefixes (the same keys at both sites included), clock
-    advances, expiry visits (marker keys included), link steps in either
-    direction, snapshot units, every bookkeeping request the tool issues, and
-    RESTARTS / reconnects of either syncer resuming anywhere between its last
-    committed unit and where it had read. Then, at every moment:
+/-- **No loop — always.** Two sites holding any data (`NsTtl`), two links with
+    checkpoint names as the tool generates them (brace-free). Run ANY list of
+    events, each satisfying `EvOK'` (a condition on the event alone): client
+    commands and MULTI/EXEC transactions at either site on any keys outside the
+    reserved prefixes (the same keys at both sites included), clock advances,
+    expiry visits (marker keys included), link steps in either direction,
+    snapshot units, every bookkeeping request the tool issues, and restarts /
+    reconnects of either syncer that resume at ANY block already reached — behind
+    the last committed unit (sync mode) or BEFORE it (pipeline / parallel mode
+    resuming at the contiguous frontier: committed units are read and committed
+    again). Then, at every moment:
 
-    1. **no loop** — every unit ever committed was built from a client (or
-       expiry) block: nothing a link, a snapshot unit or the bookkeeping wrote
-       at a site is ever sent back, marker expired or not, syncer restarted or not;
-    2. **no false suppression, exactly once** — for each link, the units it has
-       committed at the other site are, in order, exactly the client blocks
-       with a non-empty effect among the blocks it has consumed, each once
-       (re-reading after a restart commits nothing twice), and each unit holds
-       exactly the commands of its block;
-    3. a link stops only because the unit builder refused a client block;
-    4. once no block still to be read is owed a commit, any further link steps
-       and restarts change neither stream, nor the commit log, nor the units.
+    1. every commit ever made — repeats after a restart included — was built
+       from a client (or expiry) block: nothing a link, a snapshot unit or the
+       bookkeeping wrote at a site is ever sent back;
+    2. every block the tool wrote at a site is passed over by the opposite link
+       whenever and however often it reads it (no unit, no error, parser idle);
+    3. no false suppression: every client block with a non-empty effect a link
+       has consumed has been committed at the other site AT LEAST once, and each
+       emitted unit holds exactly the commands of its block;
+    4. a link stops only because the unit builder refused a client block.
+
+    What does NOT hold here is "at most once": see `exactly_once_any_restart_stmt`. -/
+theorem no_loop_always (cfg : WCfg) (hf : FOK cfg.parser.filter) (cpAB cpBA : Bytes) (sa sb : Store) (na nb : Nat)
+    (hab : Slot.lbrace ∉ cpAB) (hba : Slot.lbrace ∉ cpBA) (ha : NsTtl sa) (hb : NsTtl sb)
+    (evs : List Ev) (hgood : GoodEvents cfg evs) :
+    let w := runWorld cfg (World.initWith cpAB cpBA sa sb na nb) evs
+    (∀ t ∈ w.commits, isForeign t.1 = true) ∧
+    (∀ s, ∀ tb ∈ (w.site s).stream, isForeign tb.tag = false → QuietB cfg.parser tb.block) ∧
+    ((∀ s, ∀ t ∈ dueTags (w.site s).stream (w.link s).pos, t ∈ commitsAt w s.other) ∧
+      ∀ s, ∀ p ∈ (w.link s).emitted, ∃ tb ∈ (w.site s).stream, tb.tag = p.1 ∧ p.2.unit.cmds = tb.block.body.map norm) ∧
+    (∀ src e, (w.link src).halted = some e → ∃ be, e = .build be) := by
+  intro w
+  have hl : LInv cfg w := lrun cfg hf evs _ (linv_initWith cfg cpAB cpBA sa sb na nb hab hba ha hb) hgood
+  refine ⟨hl.foreign, ?_, ⟨hl.sup, hl.content⟩, ?_⟩
+  · intro s tb htb hnf
+    have := hl.winv.blocks s tb (by rw [site_norm]; exact htb)
+    unfold BlockOK at this
+    rw [hnf] at this
+    simpa using this
+  · intro src e he
+    exact hl.winv.halt src e (by rw [link_norm]; exact he)
+
+/-- **Exactly once and quiescence — when every restart is exact.** As
+    `no_loop_always`, and in addition every restart of the run resumes at or
+    behind the last unit its link committed (`ExactRestarts`: what the commit
+    records of SYNC mode give, C14 `sync_mode_exact`; the property text itself
+    says "absent restarts"). Then moreover:
+
+    2'. for each link, the units it has committed at the other site are, in
+        order, EXACTLY the client blocks with a non-empty effect among the blocks
+        it has consumed, each once: re-reading after such a restart commits
+        nothing twice;
+    4'. once no block still to be read is owed a commit, any further link steps
+        and exact restarts change neither stream, nor the commit log, nor the units.
 
     The one exception of the property text is not in this model: databases
     (`D31_counterexample` below). -/
 theorem no_loop_no_false_suppression (cfg : WCfg) (hf : FOK cfg.parser.filter) (cpAB cpBA : Bytes)
-    (hab : Slot.lbrace ∉ cpAB) (hba : Slot.lbrace ∉ cpBA) (evs : List Ev) (hgood : GoodEvents cfg evs) :
-    let w := runWorld cfg (World.init cpAB cpBA) evs
+    (sa sb : Store) (na nb : Nat)
+    (hab : Slot.lbrace ∉ cpAB) (hba : Slot.lbrace ∉ cpBA) (ha : NsTtl sa) (hb : NsTtl sb)
+    (evs : List Ev) (hgood : GoodEvents cfg evs)
+    (hexact : ExactRestarts cfg (World.initWith cpAB cpBA sa sb na nb) evs) :
+    let w := runWorld cfg (World.initWith cpAB cpBA sa sb na nb) evs
     (∀ t ∈ w.commits, isForeign t.1 = true) ∧
     ((∀ src, commitsAt w src.other = dueTags (w.site src).stream (w.link src).pos) ∧
       ∀ s, ∀ p ∈ (w.link s).emitted, ∃ tb ∈ (w.site s).stream, tb.tag = p.1 ∧ p.2.unit.cmds = tb.block.body.map norm) ∧
     (∀ src e, (w.link src).halted = some e → ∃ be, e = .build be) ∧
-    (NoPending w → ∀ more, (∀ e ∈ more, e.isLinkOrRestart) →
+    (NoPending w → ∀ more, (∀ e ∈ more, e.isLinkOrRestart) → ExactRestarts cfg w more →
       (runWorld cfg w more).a.stream = w.a.stream ∧ (runWorld cfg w more).b.stream = w.b.stream ∧
       (runWorld cfg w more).commits = w.commits ∧
       ∀ s, ((runWorld cfg w more).link s).emitted = (w.link s).emitted) := by
   intro w
-  have hg : GInv cfg w := grun cfg hf evs _ (ginv_init cfg cpAB cpBA hab hba) hgood
+  have hg0 := ginv_initWith cfg cpAB cpBA sa sb na nb hab hba ha hb
+  have hg : GInv cfg w := grun cfg hf evs _ hg0 hgood hexact
   refine ⟨?_, ⟨hg.winv.once, ?_⟩, hg.winv.halt, ?_⟩
   · intro t ht
     have hmem : t.1 ∈ commitsAt w t.2 := by
@@ -385,43 +426,55 @@ theorem no_loop_no_false_suppression (cfg : WCfg) (hf : FOK cfg.parser.filter) (
     have hsrc : t.2 = t.2.other.other := (other_other t.2).symm
     rw [hsrc, hg.winv.once t.2.other] at hmem
     exact dueTags_foreign _ _ _ hmem
-  · exact content_grun cfg hf evs _ (ginv_init cfg cpAB cpBA hab hba) (content_init cpAB cpBA) hgood
-  · intro hnp more hl
-    exact gquiesce cfg hf more w hg hnp hl
+  · exact content_grun cfg hf evs _ hg0 (content_initWith cpAB cpBA sa sb na nb) hgood hexact
+  · intro hnp more hl hex
+    exact gquiesce cfg hf more w hg hnp hl hex
 
 /-- … and the exchange still drains: from any such world there is a finite
-    sequence of link steps after which both links are settled. -/
-theorem drain_reaches_global (cfg : WCfg) (hf : FOK cfg.parser.filter) (cpAB cpBA : Bytes)
-    (hab : Slot.lbrace ∉ cpAB) (hba : Slot.lbrace ∉ cpBA) (evs : List Ev) (hgood : GoodEvents cfg evs) :
-    let w := runWorld cfg (World.init cpAB cpBA) evs
+    sequence of link steps after which both links are settled (existence). -/
+theorem drain_reaches_global (cfg : WCfg) (hf : FOK cfg.parser.filter) (cpAB cpBA : Bytes) (sa sb : Store) (na nb : Nat)
+    (hab : Slot.lbrace ∉ cpAB) (hba : Slot.lbrace ∉ cpBA) (ha : NsTtl sa) (hb : NsTtl sb)
+    (evs : List Ev) (hgood : GoodEvents cfg evs)
+    (hexact : ExactRestarts cfg (World.initWith cpAB cpBA sa sb na nb) evs) :
+    let w := runWorld cfg (World.initWith cpAB cpBA sa sb na nb) evs
     ∃ more, (∀ e ∈ more, e.isLink) ∧ (∀ s, Settled (runWorld cfg w more) s) := by
   intro w
-  have hg : GInv cfg w := grun cfg hf evs _ (ginv_init cfg cpAB cpBA hab hba) hgood
+  have hg : GInv cfg w := grun cfg hf evs _ (ginv_initWith cfg cpAB cpBA sa sb na nb hab hba ha hb) hgood hexact
   obtain ⟨more, h1, _, h3⟩ := Bisync.drain_reaches cfg hf w hg.winv
   exact ⟨more, h1, h3⟩
+
+/-- the statement WITHOUT the condition on restarts: exactly once for any
+    restart. It is false, and allowed to be (the property says "absent
+    restarts"; pipeline / parallel mode resume at the contiguous frontier). -/
+def exactly_once_any_restart_stmt : Prop :=
+  ∀ (cfg : WCfg), FOK cfg.parser.filter → ∀ (cpAB cpBA : Bytes), Slot.lbrace ∉ cpAB → Slot.lbrace ∉ cpBA →
+    ∀ (evs : List Ev), GoodEvents cfg evs →
+      ∀ src, commitsAt (runWorld cfg (World.init cpAB cpBA) evs) src.other =
+        dueTags ((runWorld cfg (World.init cpAB cpBA) evs).site src).stream ((runWorld cfg (World.init cpAB cpBA) evs).link src).pos
 
 -- non-vacuity: both directions active, the same key written at both sites,
 -- the A→B syncer restarted and re-reading a block it had already passed
 private def hist2 : List Ev :=
   [.client .A false [incrN], .link .A arg0, .client .B false [incrN], .link .B arg0, .link .B arg0,
-   .link .A arg0, .restart .A 1, .link .A arg0, .link .A arg0, .tick .B 86400001,
+   .link .A arg0, .restart .A 1 2, .link .A arg0, .link .A arg0, .tick .B 86400001,
    .client .A true [incrN, incrN], .link .A arg0, .link .B arg0, .book .A (.frontierSave cpA [[118], [49]])]
 where cpA : Bytes := Gen.bisyncCheckpointKeyPrefix ++ [58, 49]
 private theorem cpA_valid : Gen.checkpointKey <+: Gen.bisyncCheckpointKeyPrefix ++ [58, 49] :=
   (show Gen.checkpointKey <+: Gen.bisyncCheckpointKeyPrefix from ⟨[45,98,105,115,121,110,99], by decide⟩).trans
     (List.prefix_append _ _)
-example : GoodEvents wcfg hist2 := by
-  have hc : ∀ c ∈ [incrN], ClientOK wcfg.parser c := fun c hc => by rw [List.mem_singleton.mp hc]; exact incrN_ok
+private theorem incr_ok : ∀ c ∈ [incrN], ClientOK wcfg.parser c := fun c hc => by rw [List.mem_singleton.mp hc]; exact incrN_ok
+private theorem hist2_good : GoodEvents wcfg hist2 := by
   have hcc : ∀ c ∈ [incrN, incrN], ClientOK wcfg.parser c := by
     intro c hc
     have : c = incrN := by simpa using hc
     rw [this]; exact incrN_ok
   unfold hist2
-  refine goodEvents_cons _ _ _ hc <| goodEvents_cons _ _ _ trivial <| goodEvents_cons _ _ _ hc <|
+  refine goodEvents_cons _ _ _ incr_ok <| goodEvents_cons _ _ _ trivial <| goodEvents_cons _ _ _ incr_ok <|
     goodEvents_cons _ _ _ trivial <| goodEvents_cons _ _ _ trivial <| goodEvents_cons _ _ _ trivial <|
     goodEvents_cons _ _ _ trivial <| goodEvents_cons _ _ _ trivial <| goodEvents_cons _ _ _ trivial <|
     goodEvents_cons _ _ _ trivial <| goodEvents_cons _ _ _ hcc <| goodEvents_cons _ _ _ trivial <|
     goodEvents_cons _ _ _ trivial <| goodEvents_cons _ _ _ ⟨cpA_valid, trivial⟩ <| goodEvents_nil _
+private theorem hist2_exact : ExactRestarts wcfg (World.initWith [99,112,49] [99,112,50] [] [] 0 0) hist2 := by decide +kernel
 -- the restart really rewinds the A→B link (it had read two blocks, resumes at 1) …
 example : ((runWorld wcfg (World.init [99,112,49] [99,112,50]) (hist2.take 6)).ab.pos,
     (runWorld wcfg (World.init [99,112,49] [99,112,50]) (hist2.take 7)).ab.pos) = (2, 1) := by decide +kernel
@@ -429,7 +482,27 @@ example : ((runWorld wcfg (World.init [99,112,49] [99,112,50]) (hist2.take 6)).a
 -- the block B's link wrote at A read twice by the restarted link and never sent back
 example : (runWorld wcfg (World.init [99,112,49] [99,112,50]) hist2).commits =
     [(.foreign 0, .B), (.foreign 1, .A), (.foreign 2, .B)] := by decide +kernel
-example : Slot.lbrace ∉ ([99,112,49] : Bytes) ∧ Slot.lbrace ∉ ([99,112,50] : Bytes) := by decide
+-- the theorem applied to that history
+example : ∀ t ∈ (runWorld wcfg (World.initWith [99,112,49] [99,112,50] [] [] 0 0) hist2).commits, isForeign t.1 = true :=
+  (no_loop_no_false_suppression wcfg default_filter_ok [99,112,49] [99,112,50] [] [] 0 0 (by decide) (by decide)
+    nsTtl_nil nsTtl_nil hist2 hist2_good hist2_exact).1
+
+-- a restart that resumes BEFORE the last committed unit (pipeline / parallel mode): the unit is committed again —
+-- INCRBY n0 5 twice at the peer. `no_loop_always` covers this history; "exactly once" does not hold for it.
+private def histRewind : List Ev := [.client .A false [incrN], .link .A arg0, .restart .A 0 1, .link .A arg0]
+private theorem histRewind_good : GoodEvents wcfg histRewind := by
+  unfold histRewind
+  exact goodEvents_cons _ _ _ incr_ok <| goodEvents_cons _ _ _ trivial <| goodEvents_cons _ _ _ trivial <|
+    goodEvents_cons _ _ _ trivial <| goodEvents_nil _
+example : (runWorld wcfg (World.init [99,112,49] [99,112,50]) histRewind).commits =
+    [(.foreign 0, .B), (.foreign 0, .B)] := by decide +kernel
+example : ¬ ExactRestarts wcfg (World.init [99,112,49] [99,112,50]) histRewind := by decide +kernel
+/-- "exactly once whatever the restart" is refuted by that history -/
+theorem exactly_once_needs_exact_restarts : ¬ exactly_once_any_restart_stmt := by
+  intro h
+  have := h wcfg default_filter_ok [99,112,49] [99,112,50] (by decide) (by decide) histRewind histRewind_good .A
+  revert this
+  decide +kernel
 
 /-! ### the exception: databases (known finding D31) -/
 
